@@ -1,5 +1,6 @@
 import Mltwist.Lemmas.EmulatorReport
 import Mltwist.Lemmas.RiscvLiftWF
+import Mltwist.Lemmas.RiscvLiftStoreW
 /-
 Emulator (C03), part 15: the code view of an image.  Every instruction of `liftCode blocks` is the lifting
 of a word by an entry of the RV64IMA tables, and all its expressions — before and after constant folding —
@@ -10,6 +11,7 @@ namespace Mltwist.Lemmas.Emulator
 open Mltwist Mltwist.State Mltwist.Overlay Mltwist.Emulator Mltwist.Riscv
 open Mltwist.Spec.Rv Mltwist.Spec.Lift
 open Mltwist.Lemmas.RiscvLift (EntryWF EffWF OWF AllOWF mem_instructionSet wf_integer64 wf_mul64 wf_atomic64)
+open Mltwist.Lemmas.RiscvLift (EntrySW OSW AllOSW sw_integer64 sw_mul64 sw_atomic64)
 
 theorem entryWF_of_mem {e : Entry} (he : e ∈ instructionSet 64 true true) : EntryWF e := by
   rcases mem_instructionSet (Or.inr rfl) he with ⟨h, _⟩ | ⟨_, h | h | h⟩
@@ -41,6 +43,29 @@ theorem LiftedFrom.wf {ins : Emulator.Ins} {e : Entry} {word : Nat} (h : LiftedF
   rw [h.effects] at hef
   obtain ⟨ef0, h0, rfl⟩ := List.mem_map.1 hef
   exact wfE_fold (hraw ef0 h0)
+
+theorem entrySW_of_mem {e : Entry} (he : e ∈ instructionSet 64 true true) : EntrySW e := by
+  rcases mem_instructionSet (Or.inr rfl) he with ⟨h, _⟩ | ⟨_, h | h | h⟩
+  · cases h
+  · exact sw_integer64 e h
+  · exact sw_mul64 e h
+  · exact sw_atomic64 e h
+
+/-- every store of an instruction lifted from the tables has a width between 1 and 255 (REPAIR F45: the
+unconditional never-panics theorems need the width of the stores as well) -/
+theorem LiftedFrom.sw {ins : Emulator.Ins} {e : Entry} {word : Nat} (h : LiftedFrom ins e word) : InsSW ins := by
+  intro v k a w hm
+  rw [h.effects] at hm
+  obtain ⟨ef0, h0, he0⟩ := List.mem_map.1 hm
+  unfold Entry.validEffects at h0
+  rw [List.mem_filterMap] at h0
+  obtain ⟨o, ho, hid⟩ := h0
+  cases ef0 with
+  | regStore v0 k0 w0 => simp [Effect.apply] at he0
+  | memStore v0 k0 a0 w0 =>
+    simp only [Effect.apply, Effect.memStore.injEq] at he0
+    obtain ⟨_, _, _, rfl⟩ := he0
+    exact entrySW_of_mem h.mem ⟨ins.addr, word⟩ o ho v0 k0 a0 w0 hid
 
 /-- every instruction of the code view of an image is lifted from the tables -/
 def AllLifted (code : CodeView) : Prop := ∀ ins ∈ code, ∃ e word, LiftedFrom ins e word
@@ -101,6 +126,13 @@ theorem codeWF_of_liftCode {blocks : List (Nat × List UInt8)} {code : CodeView}
   intro ins hins
   obtain ⟨e, word, hl⟩ := liftCode_lifted blocks code h ins hins
   exact hl.wf.2
+
+/-- … and so is `CodeSW` (the widths of its stores) -/
+theorem codeSW_of_liftCode {blocks : List (Nat × List UInt8)} {code : CodeView} (h : liftCode blocks = some code) :
+    CodeSW code := by
+  intro ins hins
+  obtain ⟨e, word, hl⟩ := liftCode_lifted blocks code h ins hins
+  exact hl.sw
 
 /-! ### refinement without well-formedness hypotheses -/
 
